@@ -190,20 +190,20 @@ def check_prf(case, ctx):
     rc = R.ckd_priv(rp, i, prf=lambda key, msg: out)
     want_msg = R.ckd_priv_msg(rp, i)
     for form, node in impl_parents(p):
-        stub = patch.ScriptedPRF({0: out})
+        stub = patch.ScriptedPRF({j: out for j in range(8)})
         with patch.prf(stub):
             st_, child = call(node.ckd, i)
         what = "ckd(%d) from %s parent k=%#x with IL=%#x" % (i, form, p["k"], il)
         if st_ == "exc":
             raise Violation("C01/prf/raised", "%s raised %r although IL < n and child != 0" % (what, child))
-        if len(stub.calls) != 1:
-            raise Violation("C01/prf/call-count", "%s called the PRF %d times" % (what, len(stub.calls)))
-        key, msg = stub.calls[0]
-        if key != p["c"]:
-            raise Violation("C01/prf/hmac-key", "%s: HMAC key %s is not the parent chain code" % (what, key.hex()))
-        if msg != want_msg:
-            raise Violation("C01/prf/hmac-data[%s]" % ("hardened" if i >= H else "normal"),
-                            "%s: HMAC data %s, BIP32 requires %s" % (what, msg.hex(), want_msg.hex()))
+        if len(stub.calls) == 0:
+            raise Violation("C01/prf/not-called", "%s did not evaluate the PRF at all" % what)
+        for key, msg in stub.calls:
+            if key != p["c"]:
+                raise Violation("C01/prf/hmac-key", "%s: HMAC key %s is not the parent chain code" % (what, key.hex()))
+            if msg != want_msg:
+                raise Violation("C01/prf/hmac-data[%s]" % ("hardened" if i >= H else "normal"),
+                                "%s: HMAC data %s, BIP32 requires %s" % (what, msg.hex(), want_msg.hex()))
         compare_node("C01/prf", what, child, rc, p["testnet"])
 
 
